@@ -2,6 +2,7 @@
 #define AMGCL_MAKE_BLOCK_SOLVER_HPP
 
 #include <amgcl/backend/interface.hpp>
+#include <amgcl/backend/builtin.hpp>
 #include <amgcl/adapter/block_matrix.hpp>
 #include <amgcl/value_type/static_matrix.hpp>
 #include <amgcl/make_solver.hpp>
@@ -34,7 +35,12 @@ class make_block_solver {
                 const backend_params &bprm = backend_params()
                 )
         {
-            S = std::make_shared<Solver>(adapter::block_matrix<value_type>(A), prm, bprm);
+            // The block adapter merges the scalar rows of each block row
+            // and expects their entries to be sorted by column:
+            auto As = std::make_shared< backend::crs<scalar_type> >(A);
+            backend::sort_rows(*As);
+
+            S = std::make_shared<Solver>(adapter::block_matrix<value_type>(*As), prm, bprm);
         }
 
         template <class Matrix, class Vec1, class Vec2>
